@@ -28,12 +28,12 @@ CHECKS = {
  "C03": dict(
     level="model_checking", design="§5 C03",
     technique="TLA+ model of AnalysisRunner and of the writers (Runner.tla, Output.tla) checked by TLC over all configurations x orders x option sets; TLC-generated schedules replayed on the real runner (hook H4) against an independent production oracle; stdout/SARIF/exit of the real binary validated by TLC (RunnerTrace.tla)",
-    text="TLC proves report conservation for the model of the runner over every configuration of 2 (thorough: 3) definitions, every look-up relation and every analysis order, and the output contract for every option set. Every schedule TLC emits is executed on the real AnalysisRunner in exactly that order and compared, per definition and as multisets, with what an oracle built only from public stage functions says is produced. The real binary is run on every configuration and on the full (level x allow-subset x sarif x verbose) lattice of a set of projects (among them projects in which a named file is also included by another named file, in both command-line orders; which files are user-specified is decided by the command line, not by the library's own flags); its stdout, SARIF file and exit status are accepted or rejected by RunnerTrace.tla.",
+    text="TLC proves report conservation for the model of the runner over every configuration of 2 (thorough: 3) definitions, every look-up relation and every analysis order, and the output contract for every option set. Every schedule TLC emits is executed on the real AnalysisRunner in exactly that order and compared, per definition and as multisets, with what an oracle built only from public stage functions says is produced. The real binary is run on every configuration and on the full (level x allow-subset x sarif x verbose) lattice of a set of projects (among them projects in which a named file is also included by another named file, in both command-line orders; which files are user-specified is decided by the command line, not by the library's own flags, and twin projects of two (three) named files whose findings agree in id, message and byte span and differ in the file alone); its stdout, SARIF file and exit status are accepted or rejected by RunnerTrace.tla.",
     note="Production oracle = public into_cfg/into_ssa/get_analysis_passes with a harness-side context; stdout parser trusted; projects are small (<= 3 definitions in generated configurations plus the base corpus)."),
  "C17": dict(
     level="model_checking", design="§5 C17",
     technique="TLC: order independence of Runner.tla over all configurations and orders; TLC-enumerated project transformations (Transforms.tla) and all analysis orders (hook H4) executed on the real code; repeated fresh processes of the real binary; equality of per-definition finding multisets decided by TLC (TransformTrace.tla)",
-    text="Runner.tla's OrderIndependent invariant is checked for every configuration and analysis order. Every permutation of the base definitions x every split over two named files in both orders x every subset of three unrelated extras (a name sharing a prefix, one failing to lift, one with its own findings) x one of the two named files including the other x a further named file with 90 unrelated templates that instantiate each other is rendered and run in-process twice; all analysis orders of the base project are replayed through H4; the real binary runs 5 (30) times in fresh processes on 12 (40) projects. TransformTrace.tla accepts a batch iff every base definition has the same multiset of normalised findings in all variants.",
+    text="Runner.tla's OrderIndependent invariant is checked for every configuration and analysis order. Every permutation of the base definitions x every split over two named files in both orders x every subset of three unrelated extras (a name sharing a prefix, one failing to lift, one with its own findings) x one of the two named files including the other x a further named file with 90 unrelated templates that instantiate each other is rendered and run in-process twice; all analysis orders of the base project are replayed through H4; the real binary runs 5 (30) times in fresh processes on 12 (40) projects, and 24 times on small projects where a hash order could choose between two candidate reports (two reads before definition in one function; the same names defined in two named files of a project with a main component). TransformTrace.tla accepts a batch iff every base definition has the same multiset of normalised findings in all variants.",
     note="Hash-map iteration orders cannot be enumerated from outside the process: they are sampled (fresh processes / fresh maps), while the order of definition analysis is enumerated via H4. Findings are normalised to (id, severity, message, label texts)."),
  "C19": dict(
     level="model_checking", design="§5 C19",
@@ -88,7 +88,7 @@ CHECKS = {
  "C09": dict(
     level="model_checking", design="§5 C09",
     technique="Self-composition in TLA+ (SemanticsEffects.tla): for every site flagged by CS0006/CS0007/CS0008 TLC runs the definition twice in lock step over F_3 from all inputs, replacing the value written at the site by any value, and compares the effects the statement lists",
-    text="Every nesting chain of SemChains.tla (an accumulator updated under every nesting of if / if-else arms / while of depth <= 2 (3), used afterwards in a return, `<--` or `<==`) and every statement skeleton of SemGen.tla within the bound, instantiated with locals, parameters, input / output / intermediate signals, constraints, assertions, loops and branches, is analysed by the real code; each flagged assignment or parameter becomes a site. TLC explores, per site, all valuations of parameters and input signals x all replacement values at every execution of the site, and refutes the claim if a value assigned to an input/output signal, a side of a constraint mentioning one, an assertion outcome, the return value or a branch decision differs between the two runs.",
+    text="Every nesting chain of SemChains.tla (an accumulator updated under every nesting of if / if-else arms / while of depth <= 2 (3), used afterwards in a return, `<--` or `<==`, or flowing into an unconstrained intermediate signal that alone is read by an assertion or a branch condition) and every statement skeleton of SemGen.tla within the bound, instantiated with locals, parameters, input / output / intermediate signals, constraints, assertions, loops and branches, is analysed by the real code; each flagged assignment or parameter becomes a site. TLC explores, per site, all valuations of parameters and input signals x all replacement values at every execution of the site, and refutes the claim if a value assigned to an input/output signal, a side of a constraint mentioning one, an assertion outcome, the return value or a branch decision differs between the two runs.",
     note="F_3; local arrays with run-dependent indices and dimensions are generated (write-cursor and dimension families of SemChains.tla), component ports are not; only flagged sites are judged."),
  "C20": dict(
     level="model_checking", design="§5 C20",
